@@ -134,10 +134,16 @@ def effective_resistance_exact(r):
 def pseudo_inverse(r):
     """Moore-Penrose inverse of the admittance Laplacian of a connected
     network, via (L + J/N)^-1 - J/N (no SVD)."""
-    L = laplacian(admittance(r))
+    #  pinv(L(c r)) = c pinv(L(r)): work in units of the typical link
+    #  resistance, otherwise the null-mode part J/N (size 1/N) swamps the
+    #  wanted entries (size ~ resistance) in the subtraction below
+    r = np.asarray(r)
+    nz = np.abs(r[r != 0])
+    unit = float(np.median(nz)) if nz.size else 1.0
+    L = laplacian(admittance(r / unit))
     n = len(L)
     J = np.full((n, n), 1.0 / n)
-    return np.linalg.inv(L + J) - J
+    return (np.linalg.inv(L + J) - J) * unit
 
 
 def shortest_path_resistance(r):
